@@ -34,7 +34,15 @@ class E9(E8):        # a subclass: isinstance-based filtering must treat it as a
     code = 9
 
 
-EXC = {7: E7, 8: E8, 9: E9}
+class Stop(StopIteration):
+    """a StopIteration that a user function raises (e.g. a bare next() on an exhausted helper iterator) or that travels
+    as a data element: inside the generator-based operators it must surface as an error (PEP 479), never end the stream"""
+    def __init__(self, code=19):
+        super().__init__(code)
+        self.code = code
+
+
+EXC = {7: E7, 8: E8, 9: E9, 19: Stop}
 # which codes are instances of which class code (for the model's drop/keep sets)
 ISA = {7: [7], 8: [8, 9], 9: [9]}
 
@@ -89,7 +97,11 @@ def map_fn(i):
             return E7(7)
         return x
     def f6(x): return (x, x)
-    return [f0, f1, f2, f3, f4, f5, f6][min(i, 6)]
+    def f7(x):
+        if is_int(x) and x == 5:
+            raise Stop(17)
+        return x
+    return [f0, f1, f2, f3, f4, f5, f6, f7][min(i, 7)]
 
 
 def pred_fn(i):
@@ -106,7 +118,11 @@ def pred_fn(i):
             raise UErr(14)
         return True
     def p4(x): return False
-    return [p0, p1, p2, p3, p4][min(i, 4)]
+    def p5(x):
+        if is_int(x) and x == 6:
+            raise Stop(18)
+        return True
+    return [p0, p1, p2, p3, p4, p5][min(i, 5)]
 
 
 def parity(x):
@@ -130,7 +146,11 @@ def acc_fn(i):
             return a + b
         raise UErr(16)
     def a1(a, b): return b
-    return [a0, a1][min(i, 1)]
+    def a2(a, b):
+        if is_int(b) and b == 7:
+            raise Stop(20)
+        return b
+    return [a0, a1, a2][min(i, 2)]
 
 
 # ------------------------------------------------------------------------------------------------
@@ -144,7 +164,7 @@ def gen_elem(rng, depth=0):
     if r < 0.72:
         return ['N']
     if r < 0.82:
-        return ['X', rng.choice([7, 8, 9])]
+        return ['X', rng.choice([7, 8, 9, 7, 8, 9, 19])]
     if r < 0.95 and depth < 2:
         return ['L', [gen_elem(rng, depth + 1) for _ in range(rng.choice([0, 1, 2, 3]))]]
     return ['I', rng.randrange(0, 10)]
@@ -155,9 +175,9 @@ def gen_op(rng, n):
     k = rng.choice(['map', 'map', 'filter', 'filter_exc', 'peek', 'head', 'tail', 'batch', 'unbatch', 'groupby',
                     'accum', 'buffer', 'parmap', 'shuffle'])
     if k == 'map':
-        return ['map', rng.randrange(0, 7)]
+        return ['map', rng.randrange(0, 8)]
     if k == 'filter':
-        return ['filter', rng.randrange(0, 5)]
+        return ['filter', rng.randrange(0, 6)]
     if k == 'filter_exc':
         return ['filter_exc', rng.choice([[], [7], [8], [7, 8], [9], [7, 8, 9]]), rng.choice([[], [], [7], [8], [9]])]
     if k in ('peek', 'unbatch'):
@@ -170,9 +190,9 @@ def gen_op(rng, n):
     if k == 'groupby':
         return ['groupby', rng.randrange(0, 4)]
     if k == 'accum':
-        return ['accum', rng.randrange(0, 2), rng.choice([None, None, ['I', 10], ['N']])]
+        return ['accum', rng.randrange(0, 3), rng.choice([None, None, ['I', 10], ['N']])]
     if k == 'parmap':
-        return ['parmap', rng.choice([0, 1, 1, 2, 3, 4, 5, 6]), rng.random() < 0.4, rng.random() < 0.5, rng.choice([1, 2, 3])]
+        return ['parmap', rng.choice([0, 1, 1, 2, 3, 4, 5, 6, 7]), rng.random() < 0.4, rng.random() < 0.5, rng.choice([1, 2, 3])]
     return ['shuffle', rng.choice(bnd), [rng.randrange(0, 50) for _ in range(rng.randrange(0, 12))]]
 
 
@@ -230,6 +250,9 @@ class Source:
 def exc_code(e):
     if isinstance(e, TypeError):
         return 90
+    if isinstance(e, RuntimeError) and isinstance(e.__cause__, StopIteration):
+        # PEP 479: a StopIteration escaping a generator frame becomes RuntimeError; the error stays visible
+        return getattr(e.__cause__, 'code', 999)
     return getattr(e, 'code', 999)
 
 
@@ -425,9 +448,9 @@ def reference(case):
     for o in case['ops']:
         k = o[0]
         if k == 'map':
-            g = map(map_fn(o[1]), g)
+            g = (lambda f, up: (f(x) for x in up))(map_fn(o[1]), g)      # 1-to-1: an escaping StopIteration is an error
         elif k == 'filter':
-            g = filter(pred_fn(o[1]), g)
+            g = (lambda p, up: (x for x in up if p(x)))(pred_fn(o[1]), g)
         elif k == 'filter_exc':
             g = fexc(g, tuple(EXC[c] for c in o[1]), tuple(EXC[c] for c in o[2]))
         elif k in ('peek', 'buffer'):
